@@ -346,3 +346,16 @@ Proof.
   induction ops as [|o ops IH]; intros st n; cbn; auto.
   pose proof (step_pw_ok w st n o) as H. destruct (step w st n o) as [st' x]. cbn in H. rewrite H, IH. reflexivity.
 Qed.
+
+Lemma trace_pw_ok_init w dyn ops : trace_pw_ok w (init_state dyn) 0 ops = true.
+Proof. apply trace_pw_ok_all. Qed.
+
+(* satisfiability: a pairwise client whose token options ask for JWT gets an opaque token from the
+   code grant and a JWT from client_credentials *)
+Definition ex_pw_client : client :=
+  mkClient 4 false [GAuthorizationCode; GClientCredentials] ["code"] ["https://c4.example/cb"] "openid" CibaNone
+           false false true true false false false 0 false.
+Example ex_pairwise_tokens :
+  (fst (make_token 3 ex_pw_client GAuthorizationCode), fst (make_token 3 ex_pw_client GClientCredentials))
+  = (mint 3 KAtOpaque, mint 3 KAtJwt).
+Proof. reflexivity. Qed.
